@@ -40,7 +40,12 @@ def run(tier):
         for w0 in range(len(h.WS_COMPS)):
             for wabs in (0, 1, 2, 3):
                 for i0 in range(nin):
-                    slices.append(dict(fix=dict(w0=[w0], wabs=[wabs], i0=[i0])))
+                    slices.append(dict(fix=dict(w0=[w0], wabs=[wabs], i0=[i0], stale=[0, 1], force=[0, 1])))
+        # incremental mode and workspaces whose own src / bak are out-pointing links: one- and two-component options, every first input
+        for w0 in range(len(h.WS_COMPS)):
+            for i0 in range(nin):
+                slices.append(dict(fix=dict(w0=[w0], wabs=[0, 1], w1=[h.ABSENT, 0, 2], i0=[i0], i1=[h.ABSENT], link=[0, 1], nested=[0], stale=[0, 1, 2], force=[2, 3])))
+                slices.append(dict(fix=dict(w0=[w0], wabs=[0, 1], w1=[h.ABSENT], i0=[i0], i1=[h.ABSENT], link=[0], nested=[0], stale=[2], force=[0, 1])))
     b.add("workspace x inputs x flags: effects confined to realpath(workspace), bounded, deletes only with --force", M,
           "check_confinement", slices=slices, pct=400 if tier == "quick" else 3000, ppt=60, twin="check_confinement_reach",
           twin_slice=dict(fix=dict(w0=[1], wabs=[0], w1=[h.ABSENT], i0=[0], i1=[h.ABSENT], force=[1])),
